@@ -14,7 +14,7 @@ import (
 func init() {
 	eng.Register(&eng.Check{
 		ID:          "C10",
-		Rule:        "E2 language explorer over bytes: (a) ALL byte strings of length <=4 (thorough <=5) over a 31-symbol alphabet with one representative per lexical class of the grammar (a n o t i s 0 1 - . \" ` / ~ _ ( ) { } [ ] , = ! space backslash NUL 0xFF 0xC3(truncated lead byte) and the 2-byte e-acute); (b) every sequence of <=2 tokens of the extended C15 token alphabet and <=3 of the base alphabet, all gap patterns; (c) every derivation of the C15 derivation set with one bad element (NUL, 0xFF, 0xC3, a lone quote of either kind, \"\\x\", \"\\400\", \"\\\", newline, [, (, {) injected at EVERY byte position; oracle on the real code: CreateEvaluator, CreateFilter, grammar.Parse never panic; evaluator xor error (nil filter only for \"\"); Parse error is nil exactly when CreateEvaluator accepts, then its value is a non-nil Expression; every accepted evaluator evaluates 8 probe data (maps / lists / structs with every scalar kind incl. unsigned, float, bool, nil) (err => false, no panic), executes as a filter and its tree dumps without panic. Distinct by construction within each family; non-trivial = input accepted (the evaluator was exercised) or rejected with a nil result as required (both directions are meaningful; counted: accepted ones).",
+		Rule:        "E2 language explorer over bytes: (a) ALL byte strings of length <=4 (thorough <=5) over a 31-symbol alphabet with one representative per lexical class of the grammar (a n o t i s 0 1 - . \" ` / ~ _ ( ) { } [ ] , = ! space backslash NUL 0xFF 0xC3(truncated lead byte) and the 2-byte e-acute); (b) every sequence of <=2 tokens of the extended C15 token alphabet and <=3 of the base alphabet, all gap patterns; (c) every derivation of the C15 derivation set with one bad element (NUL, 0xFF, 0xC3, a lone quote of either kind, \"\\x\", \"\\400\", \"\\\", newline, [, (, {) injected at EVERY byte position; oracle on the real code: CreateEvaluator, CreateFilter, grammar.Parse never panic; evaluator xor error (nil filter only for \"\"); Parse error is nil exactly when CreateEvaluator accepts, then its value is a non-nil Expression; every accepted evaluator evaluates 10 probe data (the last one twice in a row) (maps / lists / structs with every scalar kind incl. unsigned, float, bool, nil) (err => false, no panic), executes as a filter and its tree dumps without panic. Distinct by construction within each family; non-trivial = input accepted (the evaluator was exercised) or rejected with a nil result as required (both directions are meaningful; counted: accepted ones).",
 		Assumptions: []string{"bounded: strings over class representatives, not all 256 byte values", "coverage-guided fuzzing (a different family) is deliberately not used"},
 		Run:         runC10,
 	})
@@ -27,7 +27,13 @@ var c10Probes = []interface{}{
 	[]interface{}{map[string]interface{}{"a": 1}}, struct{ A, N int }{1, 2},
 	map[string]interface{}{"a": uint(1), "n": uint8(0), "o": 1.5, "t": true, "i": int64(-1), "s": float32(0), "": uint64(7)},
 	map[string]interface{}{"a": []uint{1, 0}, "n": []interface{}{uint16(1), "", 0.0}, "o": map[string]uint32{"a": 1}, "t": []bool{true}, "i": []byte("a"), "s": [2]float32{1, 0}},
+	// a string under every name the derivations use, evaluated TWICE (whatever the first evaluation left behind - a compiled or
+	// uncompilable pattern, a coerced or uncoercible literal - the second one must still return)
+	c10Strings, c10Strings,
 }
+
+var c10Strings = map[string]interface{}{"a": "a", "b": "b", "x": "x", "y": "y", "n": "n", "o": "o", "t": "t", "i": "i", "s": "s", "k": "k", "v": "v", "l": []string{"a", "("}, "m": map[string]string{"a": "("},
+	"foo": "foo", "bar": "bar", "": "e"}
 
 type c10Out struct {
 	panicked string
@@ -114,7 +120,13 @@ func c10Probe(c *eng.Ctx, in []byte, coords map[string]int) {
 		}
 	}
 	if flt != nil {
-		if p := catch(func() { flt.Execute(c10Probes[4]); flt.Execute(c10Probes[3]); flt.Execute(nil) }); p != "" {
+		if p := catch(func() {
+			eng.CallBegin(flt, c10Probes[4])
+			defer eng.CallEnd()
+			flt.Execute(c10Probes[4])
+			flt.Execute(c10Probes[3])
+			flt.Execute(nil)
+		}); p != "" {
 			bad("panic-Execute", "no panic", p)
 		}
 	}
